@@ -19,6 +19,34 @@ from .sym import (Arr, Mat, Obj, DF, Havoc, Opt, TS, TD, SymMap, Unsupported, Py
                   concrete_bool, concrete_int, to_bool, is_z3, fresh_name)
 
 
+def _fatal(msg):
+    e = Unsupported(msg)
+    e.fatal = True
+    return e
+
+
+def _escapes(st):
+    """'return' / 'break' / 'continue' if the statement contains one that leaves it (break / continue of a loop nested
+    inside the statement, or the statement's own if it is a loop, do not), else None"""
+    def walk(node, in_loop):
+        for ch in ast.iter_child_nodes(node):
+            if isinstance(ch, (ast.FunctionDef, ast.Lambda, ast.ClassDef)):
+                continue
+            if isinstance(ch, ast.Return):
+                return 'return'
+            if isinstance(ch, (ast.Break, ast.Continue)) and not in_loop:
+                return type(ch).__name__.lower()
+            r = walk(ch, in_loop or isinstance(ch, (ast.For, ast.While)))
+            if r:
+                return r
+        return None
+    if isinstance(st, ast.Return):
+        return None          # handled by st_Return itself
+    if isinstance(st, (ast.Break, ast.Continue)):
+        return type(st).__name__.lower()
+    return walk(st, isinstance(st, (ast.For, ast.While)))
+
+
 def olist_like(v):
     """a Python list, or an opaque list (a callee's result whose elements the contract does not spell out)"""
     return isinstance(v, list) or (isinstance(v, Obj) and v.cls == 'list')
@@ -435,6 +463,7 @@ class Interp:
         finally:
             if self.depth == 1:
                 self.last_env_values = list(env.values())      # locals of the function under contract (for its post)
+                self.last_frame_env = dict(env)
                 self.last_env = dict(env)
             self.depth -= 1
             self.cur_mod = old_mod
@@ -503,6 +532,8 @@ class Interp:
         try:
             m(st, frame)
         except Unsupported as e:
+            if getattr(e, 'fatal', False):
+                raise
             self.havoc_stmt(st, frame, str(e))
         except (_Continue, _Break, _Return, PyRaise, CheckerError):
             raise
@@ -511,9 +542,29 @@ class Interp:
             # any other unmodelled statement (havoc = sound over-approximation), and listed in the evidence
             self.havoc_stmt(st, frame, f'internal {type(e).__name__}: {str(e)[:80]}')
 
+    MUTATING_METHODS = {'append', 'extend', 'insert', 'pop', 'remove', 'clear', 'update', 'setdefault', 'sort', 'reverse', 'fill', 'resize',
+                        'put', 'itemset', 'popitem', 'add', 'discard'}
+
     def havoc_stmt(self, st, frame, why):
         line = getattr(st, 'lineno', None)
+        # an unmodelled statement may only be replaced by "its targets are unknown" if it cannot leave the block:
+        # a return (or a break / continue of an enclosing loop) inside it would be lost
+        esc = _escapes(st)
+        if esc:
+            e = Unsupported(f'unmodelled statement contains {esc}: {why}')
+            e.fatal = True
+            raise e
         names = set()
+        for n in ast.walk(st):
+            if isinstance(n, ast.Call) and isinstance(n.func, ast.Attribute):
+                base = n.func.value
+                inplace = any(k.arg == 'inplace' and isinstance(k.value, ast.Constant) and k.value.value is True for k in n.keywords)
+                if (n.func.attr in self.MUTATING_METHODS or inplace):
+                    # a mutating call inside the unmodelled statement: its receiver is unknown afterwards
+                    if isinstance(base, ast.Name):
+                        names.add(base.id)
+                    elif isinstance(base, (ast.Attribute, ast.Subscript)):
+                        self._havoc_store(base, frame, why, line)
         for n in ast.walk(st):
             if isinstance(n, ast.Name) and isinstance(n.ctx, ast.Store):
                 names.add(n.id)
@@ -588,7 +639,16 @@ class Interp:
                 frame['env'].pop(t.id, None)
 
     def st_Return(self, st, frame):
-        raise _Return(self.ev(st.value, frame) if st.value is not None else None)
+        if st.value is None:
+            raise _Return(None)
+        try:
+            v = self.ev(st.value, frame)
+        except Unsupported as e:
+            if getattr(e, 'fatal', False):
+                raise
+            # the function returns here whatever the unmodelled expression evaluates to
+            v = self.havoc('return value: ' + str(e))
+        raise _Return(v)
 
     def st_Raise(self, st, frame):
         name = 'Exception'
@@ -1529,6 +1589,10 @@ class Interp:
         lo, hi, itemf = self.iter_parts(it)
         label = spec.label
         names = list(spec.names)
+        if hasattr(spec, 'ghost_init'):
+            # ghost state of the invariant (witness functions); lives in the frame under names the code cannot use
+            for nm, val in spec.ghost_init(self, env).items():
+                env.setdefault(nm, val)
         cur = lambda: {nm: self._path_get(nm, frame) for nm in names}
         for nme, f in spec.inv(self, lo, cur(), env):
             self.require(f'{label}.entry.{nme}', f, kind='invariant', snapshot=True)
@@ -1547,6 +1611,7 @@ class Interp:
             self.assume(z3.And(*[to_bool(f) for _, f in spec.inv(self, k, cur(), env)]))
             state_ids = {id(v) for v in cur().values()}
             snap = self._heap_snapshot([v for nm, v in env.items()], state_ids)
+            before = {nm: (v.copy() if isinstance(v, (Arr, Mat)) else v) for nm, v in cur().items()}
             self.assign(st.target, itemf(k), frame)
             try:
                 self.exec_block(st.body, frame)
@@ -1560,6 +1625,10 @@ class Interp:
                     continue
                 if not self._same_token(tok, self._heap_token(obj)):
                     raise Unsupported(f'loop body modifies {type(obj).__name__} outside the state of the invariant')
+            if hasattr(spec, 'ghost_step'):
+                # ghost code: the witnesses of the invariant after this iteration, defined from those before it
+                for nm, val in spec.ghost_step(self, k, before, cur(), env).items():
+                    self._path_set(nm, val, frame)
             for nme, f in spec.inv(self, k + 1, cur(), env):
                 self.require(f'{label}.step.{nme}', f, kind='invariant', snapshot=True)
             raise LoopCheckEnd(label)
@@ -2230,7 +2299,7 @@ class Interp:
                 return h(self, callee.obj, args, kwargs)
             if key in self.inline_ok or '*' in self.inline_ok:
                 return self.run_function(callee.mod, callee.node, args, kwargs, self_obj=callee.obj, defcls=callee.defcls)
-            raise Unsupported(f'call of {key} (no contract)')
+            raise _fatal(f'call of {key} (no contract): its effects on the heap are unknown')
         if isinstance(callee, RepoFunc):
             key = f'{callee.mod}:{callee.node.name}'
             h = self.registry.get(key)
@@ -2238,7 +2307,7 @@ class Interp:
                 return h(self, None, args, kwargs)
             if key in self.inline_ok or '*' in self.inline_ok:
                 return self.run_function(callee.mod, callee.node, args, kwargs)
-            raise Unsupported(f'call of {key} (no contract)')
+            raise _fatal(f'call of {key} (no contract): its effects on the heap are unknown')
         if isinstance(callee, RepoClass):
             mod = self.repo.classes[callee.name][0]
             key = f'{mod}:{callee.name}'
@@ -2250,7 +2319,7 @@ class Interp:
                 o = Obj(callee.name)
                 self.run_function(found[1], found[2], args, kwargs, self_obj=o, defcls=found[0])
                 return o
-            raise Unsupported(f'constructor {callee.name} (no contract)')
+            raise _fatal(f'constructor {callee.name} (no contract)')
         raise Unsupported('call_repo')
 
     # ---------------------------------------------------------------- try / with / while
